@@ -19,7 +19,7 @@ EXPLANATION = (
     "Decides these structural clauses; equality with an independent codec over all inputs is not decided.")
 # every anchor of these rules lives in the h3 crate: thorough tier repeats them on the feature-less build
 EXTRA_CONFIGS = ["h3-plain"]
-RULES = "C11-a static tables (A11); C11-b wire formats (A11+decision lists); C11-c accepted representations (A3); C11-d prefix refusal (A16/A18); C11-e error class (A3); C11-f encoder choice (A3); shared: Huffman decode_next rows under C11-c"
+RULES = "C11-a static tables (A11); C11-b wire formats (A11+decision lists); C11-c accepted representations (A3); C11-d prefix refusal (A16/A18); C11-e error class (A3); C11-f encoder choice, lookups and literals use the field's own bytes (A3/A4); C11-a also: the static lookups are the literal table and nothing else; shared: Huffman decode_next rows under C11-c"
 
 HERE = os.path.dirname(os.path.dirname(os.path.abspath(__file__)))
 REF_TABLE = [(a.encode(), b.encode()) for a, b in json.load(open(os.path.join(HERE, "ref", "rfc9204_static_table.json")))["entries"]]
